@@ -92,6 +92,8 @@ enum Case {
     RRect { w: u32, h: u32, tl: (u32, u32), tr: (u32, u32), br: (u32, u32), bl: (u32, u32) },
     /// sector and arc; angles in quarter degrees
     Angle { d: u32, start: i32, sweep: i32 },
+    /// sector and arc; angles in hundredths of a degree (sweeps just below 360, 180 and above 0)
+    AngleC { d: u32, start: i32, sweep: i32 },
 }
 
 const TL: (i32, i32) = (-4, 3);
@@ -274,20 +276,27 @@ fn sweep_dist(dx: f64, dy: f64, start: f64, sweep: f64) -> (bool, f64) {
 }
 
 fn check_angle(d: u32, start: i32, sweep: i32, obs: &mut Obs) {
+    check_angle_f(d, start as f64 / 4.0, sweep as f64 / 4.0, start % 4 != 0 || sweep % 4 != 0, obs)
+}
+
+fn check_angle_f(d: u32, st: f64, sw: f64, fractional: bool, obs: &mut Obs) {
+    let (start, sweep) = ((st * 4.0) as i32, (sw * 4.0) as i32);
     let tl = Point::new(TL.0, TL.1);
     let circle = Circle::new(tl, d);
     let cpts = set(circle.points());
     let ring: Pts = cpts.difference(&set(circle.offset(-1).points())).copied().collect();
     let (cx, cy) = (TL.0 as f64 + (d as f64 - 1.0) / 2.0, TL.1 as f64 + (d as f64 - 1.0) / 2.0);
-    let sp = set(Sector::new(tl, d, qdeg(start), qdeg(sweep)).points());
-    let ap = set(Arc::new(tl, d, qdeg(start), qdeg(sweep)).points());
+    let (a0, a1) = (Angle::from_degrees(st as f32), Angle::from_degrees(sw as f32));
+    let sp = set(Sector::new(tl, d, a0, a1).points());
+    let ap = set(Arc::new(tl, d, a0, a1).points());
     obs.outcome(&sp);
     obs.outcome(&ap);
     obs.nontrivial_if(!sp.is_empty() || !ap.is_empty());
     obs.class("sector-and-arc");
     obs.class_if(sweep < 0, "negative-sweep");
     obs.class_if(sweep.abs() >= 360 * 4, "sweep>=360");
-    obs.class_if(start % 4 != 0 || sweep % 4 != 0, "fractional-angle");
+    obs.class_if(fractional, "fractional-angle");
+    obs.class_if(sw.abs() > 359.0 && sw.abs() < 360.0, "sweep-just-below-360");
     obs.class_if(d >= 64, "large-diameter");
     if let Some(q) = sp.iter().find(|q| !cpts.contains(q)) {
         obs.fail("sector-points-lie-in-the-circle", format!("{:?}", q));
@@ -295,7 +304,6 @@ fn check_angle(d: u32, start: i32, sweep: i32, obs: &mut Obs) {
     if let Some(q) = ap.iter().find(|q| !cpts.contains(q)) {
         obs.fail("arc-points-lie-in-the-circle", format!("{:?}", q));
     }
-    let (st, sw) = (start as f64 / 4.0, sweep as f64 / 4.0);
     let mut worst = 0f64;
     for p in &cpts {
         let (dx, dy) = (p.0 as f64 - cx, p.1 as f64 - cy);
@@ -326,6 +334,7 @@ fn check(c: &Case, obs: &mut Obs) {
         Case::Ellipse { w, h } => check_ellipse(*w, *h, obs),
         Case::RRect { .. } => check_rrect(c, obs),
         Case::Angle { d, start, sweep } => check_angle(*d, *start, *sweep, obs),
+        Case::AngleC { d, start, sweep } => check_angle_f(*d, *start as f64 / 100.0, *sweep as f64 / 100.0, true, obs),
     }
 }
 
@@ -390,6 +399,16 @@ fn angle_cases(tier: Tier) -> Vec<Case> {
                 v.push(Case::Angle { d, start: start * 4 + 2, sweep: sweep_q });
             }
         }
+        // sweeps a hundredth of a degree around 0, 180 and 360 from every 5th degree and some fractional starts
+        if d == 5 || d == 9 || d == 16 || d == 33 || (t && d == 128) {
+            let mut starts: Vec<i32> = (0..360).step_by(5).map(|s| s * 100).collect();
+            starts.extend([2050, 4567, 13333, 27001, 35999]);
+            for start in starts {
+                for sweep in [35999, -35999, 35995, -35995, 35950, 1, -1, 5, -5, 17999, 18001, -17999, -18001] {
+                    v.push(Case::AngleC { d, start, sweep });
+                }
+            }
+        }
         // fractional angles k/4 degree
         if d <= 33 || t {
             for start_q in (1..1440).step_by(if t { 37 } else { 113 }) {
@@ -419,7 +438,7 @@ fn main() {
         assumptions: &["angles follow the library's convention: direction (cos t, sin t) with y down, positive sweep clockwise on screen", "f64 distances with 1e-6 slack in favour of the code; observed maxima are reported in the counters"],
         parts: |_| vec![PartSpec::new("shapes", "verif"), PartSpec::new("angles", "verif"), PartSpec::new("angles-fixed-point", "verif_fp")],
         run_part,
-        required_classes: |_| vec!["circle", "ellipse", "thin-ellipse", "even-sides", "rounded-rectangle", "radii-need-confining", "unequal-radii", "sector-and-arc", "negative-sweep", "sweep>=360", "fractional-angle", "large-diameter"],
+        required_classes: |_| vec!["circle", "ellipse", "thin-ellipse", "even-sides", "rounded-rectangle", "radii-need-confining", "unequal-radii", "sector-and-arc", "negative-sweep", "sweep>=360", "fractional-angle", "large-diameter", "sweep-just-below-360"],
         crash_is_verdict: false,
     })
 }
